@@ -360,9 +360,52 @@ def case_map(kind, h, which):
                     break
             else:
                 raise PathCut("infeasible")
-        else:
-            out.append(m.apply(c))
+            continue
+        # non-ASCII source: the few code points whose image is ASCII are split off, the
+        # rest gets a fresh variable l with l == map(c) and the (valid) lemma l >= 128,
+        # which keeps later comparisons with ASCII constants trivial for the solver
+        to_ascii = _to_ascii_preimages(m)
+        done = False
+        for cp, img in to_ascii:
+            if br(c == cp):
+                out.append(img)
+                done = True
+                break
+        if done:
+            continue
+        out.append(_mapped_var(m, c))
     return mk(kind, out)
+
+
+_TOASCII = {}
+_MAPVARS = {}
+
+
+def _to_ascii_preimages(m):
+    r = _TOASCII.get(m.name)
+    if r is None:
+        r = []
+        for lo, hi, kind, arg in m.segs:
+            for cp in range(max(lo, 128), hi + 1):
+                v = m.apply_int(cp)
+                if v < 128:
+                    r.append((cp, v))
+        _TOASCII[m.name] = r
+    return r
+
+
+def _mapped_var(m, c):
+    key = (m.name, c.get_id())
+    ent = _MAPVARS.get(key)
+    if ent is None:
+        l = z3.BitVec("%s(%s)" % (m.name, c.sexpr()[:40] if c.num_args() == 0 else "e%d" % len(_MAPVARS)), c.size())
+        guard = z3.And([z3.UGE(c, 128), z3.Not(m.multi_set.cond(c)) if m.multi else z3.BoolVal(True)]
+                       + [c != cp for cp, _ in _to_ascii_preimages(m)])
+        # globally valid: it is asserted once for all paths
+        ent = (c, l, z3.Implies(guard, z3.And(l == m.apply(c), z3.UGE(l, 128))))
+        _MAPVARS[key] = ent
+    core.CUR.assume_raw(ent[2])
+    return ent[1]
 
 
 def all_in(h, cs, empty=False):
